@@ -3,7 +3,7 @@
    input/output rows, insert_return_vars and DFContainer; expression/statement compilers,
    generics, nested functions and comptime are only differentially validated by the check. *)
 From Coq Require Import ZArith List Bool Lia Permutation Sorted.
-From V.C01 Require Import ModelLower ModelObs ProofsCmp ProofsLower ProofsRet.
+From V.C01 Require Import ModelLower ModelObs ProofsCmp ProofsLower ProofsRet ModelDfc ProofsDfc.
 Import ListNotations.
 Open Scope Z_scope.
 
@@ -123,3 +123,31 @@ Example ex_hypothesis_needed : cfg_ok bad_cfg = false
   /\ delivered bad_cfg (get_bb bad_cfg 0) 1 <> Some (declared bad_cfg 2).
 Proof. vm_compute. split; [reflexivity | discriminate]. Qed.
 
+
+(* ---- DFContainer ------------------------------------------------------------------------- *)
+
+(* Any sequence of DFContainer.__setitem__/__getitem__ calls over struct/tuple places, started
+   from an empty container, keeps the invariant: no linear place has an entry of its own while a
+   struct/tuple packed around it also has one -- every linear leaf is held by at most one of
+   {its own entry, the entry of a packed ancestor}, so __getitem__ can never hand out a linear
+   wire that a cached MakeTuple has already consumed.  Failing lookups (InternalGuppyError /
+   KeyError) end the script.  env_ok: every leaf type is copyable+droppable, affine or linear
+   (no "copyable but not droppable" leaf).  This is DFContainer as of /repo commit "assigning a
+   struct field or tuple element left a stale packed wire for the parent". *)
+Theorem dfc_linear : forall env script st, env_ok env = true ->
+  run_script env script empty_dfc = Some st -> dfc_inv env st.
+Proof. exact dfc_linear_main. Qed.
+Print Assumptions dfc_linear.
+
+(* __setitem__ as it was before that commit (leaf assignment does not forget packed ancestors)
+   breaks the invariant: s = S(qubit, int); use s as a whole; s.q = fresh qubit *)
+Theorem dfc_linear_unfixed_refuted : exists env script st, env_ok env = true /\
+  run_script_unfixed env script empty_dfc = Some st /\ ~ dfc_inv env st.
+Proof. exact dfc_unfixed_refuted_main. Qed.
+Print Assumptions dfc_linear_unfixed_refuted.
+
+(* the hypotheses are satisfiable on the same script with the repaired __setitem__: it runs,
+   re-packing s from the new qubit, and ends with s packed and only the copyable field beside it *)
+Example dfc_linear_example : exists st, run_script bad_env (bad_script ++ [SGet [0%nat]]) empty_dfc = Some st
+  /\ env_ok bad_env = true /\ keys st = [[0%nat]; [0%nat; 1%nat]].
+Proof. destruct dfc_fixed_ok as [st [H1 [_ H3]]]. exists st. repeat split; auto. Qed.
